@@ -313,7 +313,9 @@ func StdData(r *rand.Rand) val.V {
 	// decimals built by the host without a context (mantissa and scale) and in a 60-digit context of its own
 	kv = append(kv, val.KV{K: "draw", V: val.V{K: "decraw", S: "-12345678901234567.89"}}, val.KV{K: "d60", V: val.V{K: "dec60", S: "1234567890123456789012345678901234567890123.5"}})
 	// sibling host functions (closures of one literal, method values of one method)
-	kv = append(kv, val.KV{K: "fmk1", V: val.Fn("mk:one")}, val.KV{K: "fmk2", V: val.Fn("mk:two")}, val.KV{K: "mget1", V: val.Fn("meth:p1")}, val.KV{K: "mget2", V: val.Fn("meth:p2")})
+	kv = append(kv, val.KV{K: "fmk1", V: val.Fn("mk:one")}, val.KV{K: "fmk2", V: val.Fn("mk:two")}, val.KV{K: "mget1", V: val.Fn("meth:p1")}, val.KV{K: "mget2", V: val.Fn("meth:p2")},
+		// host functions whose parameter types are different structs printing the same type name
+		val.KV{K: "frowA", V: val.Fn("rowfn:A")}, val.KV{K: "frowB", V: val.Fn("rowfn:B")})
 	// odd kinds under fixed names
 	kv = append(kv, val.KV{K: "x0", V: val.RandValue(r, 2)}, val.KV{K: "x1", V: val.RandValue(r, 3)}, val.KV{K: "x2", V: val.RandScalar(r)}, val.KV{K: "odd", V: val.OddKind(r)}, val.KV{K: "odd2", V: val.OddKind(r)})
 	return val.Map(kv...)
